@@ -7,6 +7,7 @@
 import OpmVerif.Proofs.Smry
 import OpmVerif.Proofs.SmryFmt
 import OpmVerif.Proofs.ExtESmry
+import OpmVerif.Proofs.ExtESmryChain
 
 namespace OpmVerif.Props.C10
 open OpmVerif.Ecl OpmVerif.Smry
@@ -77,7 +78,24 @@ theorem esmry_write_order :
     Gen.ExtESmrySeek.writeOrder.drop (Gen.ExtESmrySeek.writeOrder.length - 3) = ["RSTEP", "TSTEP", "V*"] := by
   decide
 
+/-- **Restart chains in the ESMRY reader** ("a run that continues a base run reads as the base
+run's history up to the restart step followed by its own steps"): the part of a base run that
+enters the combined history ends with the time step completing report step `rstNum` and holds
+exactly `rstNum - own` completed report steps, where `own` is the report step the base run was
+itself restarted from (0 if it is not a restart) — for every RSTEP flag list.  The start value
+of the counter is regenerated from `ExtESmry.cpp`; with the value the code had before fix
+d9c100bd0 (zero) the statement is false for nested chains (witness in `Proofs/ExtESmryChain.lean`,
+found on the real code by the property-mode chain probe). -/
+theorem esmry_base_part_ends_at_restart_step (own rstNum : Int) (rstep : List Int) (h1 : own < rstNum)
+    (h2 : rstNum - own ≤ (ExtESmry.ones rstep : Int)) :
+    let ind := ExtESmry.cutIndex (ExtESmry.countStart own) rstNum rstep
+    ind < rstep.length ∧ rstep[ind]? = some 1 ∧
+      (ExtESmry.ones (rstep.take (ind + 1)) : Int) = rstNum - own :=
+  ExtESmry.base_part_ends_at_restart_step own rstNum rstep h1 h2
+
 /-! Non-vacuity -/
+
+example : ExtESmry.cutIndex (ExtESmry.countStart 2) 4 [0, 1, 1, 0, 1, 1] = 2 := by decide
 
 example : ExtESmry.vecPos 219 2500 3 = 219 + 2 * (24 + 10024) + 3 * (24 + 10024) := by decide +kernel
 
